@@ -36,6 +36,8 @@ type Cfg struct {
 	// microseconds: a delay point inside the write and flush paths (the
 	// library calls it with the connection lock held).
 	Written bool `json:"written_handler,omitempty"`
+	// Async: Config.AsyncReadInPoller (reading jobs on the IO executor; effective in ET and ONESHOT).
+	Async bool `json:"async_read,omitempty"`
 }
 
 func (c Cfg) Cell() string { return c.Net + "/" + c.Mode }
@@ -77,7 +79,7 @@ func init() {
 // returned Env before the first connection arrives (fields OnOpen/OnData).
 func NewEnv(cfg Cfg) (*Env, error) {
 	e := &Env{Cfg: cfg, closes: map[*nbio.Conn][]error{}}
-	conf := nbio.Config{Network: cfg.Net, NPoller: cfg.NPoller, MaxWriteBufferSize: cfg.MaxWB}
+	conf := nbio.Config{Network: cfg.Net, NPoller: cfg.NPoller, MaxWriteBufferSize: cfg.MaxWB, AsyncReadInPoller: cfg.Async}
 	if conf.NPoller == 0 {
 		conf.NPoller = 1
 	}
